@@ -156,13 +156,36 @@ pub open spec fn one_env(sh: Shell, t: Seq<char>) -> (Seq<char>, Seq<char>) {
 }
 // THE SPECIFIED EXPANSION of a word (property C10): every reference is replaced by the current value, left to right, and an
 // inserted value is never looked at again: it is appended, the scan continues with the text after the reference
+// ... and the text of a command substitution is not touched at all (C13, C11): it is planned, and expanded with its own quoting, when it runs.
+// spec_subst(t): the first `$(..)` / backquote substitution of t as (length of the text in front of it, length of the text behind it); contract of
+// split_first_substitution proved in U-EXP3 (head is a prefix without an opening, tail a proper suffix).
+pub uninterp spec fn spec_subst(t: Seq<char>) -> Option<(int, int)>;
+pub open spec fn skips_subst(t: Seq<char>) -> bool {
+    spec_subst(t).is_some() && 0 <= spec_subst(t).unwrap().0 && 0 <= spec_subst(t).unwrap().1 && spec_subst(t).unwrap().0 + spec_subst(t).unwrap().1 < t.len()
+    && !spec_env_in_token(t.take(spec_subst(t).unwrap().0))
+}
 pub open spec fn env_expand(sh: Shell, t: Seq<char>) -> Seq<char>
     decreases t.len()
 {
     if !spec_env_in_token(t) || t.len() == 0 { t }
+    else if skips_subst(t) { t.take(t.len() - spec_subst(t).unwrap().1) + env_expand(sh, t.skip(t.len() - spec_subst(t).unwrap().1)) }
     else if one_env(sh, t).1.len() < t.len() { one_env(sh, t).0 + env_expand(sh, one_env(sh, t).1) }
     else { one_env(sh, t).0 }
 }
+#[verifier::external_body]
+pub fn split_first_substitution(text: &str) -> (r: Option<(String, String, String)>)
+    ensures match r {
+        Some(p) => spec_subst(text@) == Some((p.0@.len() as int, p.2@.len() as int)) && p.0@.len() + p.2@.len() < text@.len()
+                   && p.0@ == text@.take(p.0@.len() as int) && p.2@ == text@.skip(text@.len() - p.2@.len()),
+        None => spec_subst(text@).is_none(),
+    }
+{ unimplemented!() }
+// &rest[..rest.len() - tail.len()] where tail is a suffix of rest (byte lengths of a string and of its suffix)
+#[verifier::external_body]
+pub fn vx_without_suffix(rest: &String, tail: &String) -> (r: String)
+    requires tail@.len() <= rest@.len() && tail@ == rest@.skip(rest@.len() - tail@.len())
+    ensures r@ == rest@.take(rest@.len() - tail@.len())
+{ rest[..rest.len() - tail.len()].to_string() }
 // tools::get_user_home(): the HOME directory (environment lookup; stable during the pass: assumed)
 pub uninterp spec fn spec_home() -> Seq<char>;
 #[verifier::external_body]
@@ -460,7 +483,10 @@ expand_home.hints = {'loop-0-body-entry': 'assert("~"@.len() == 1 && "~"@[0] == 
 # expand_env: which words may change, what happens to the tag, and (C13) that operator characters from a value become data
 expand_env = Fn(S, 'expand_env', rewrites=TYRW, props=('C10',),
     pre_rewrites=[SETTXT, Rw(r'tokens\[\*i\]\.0 = (.*?);', r'vx_set_token_tag(tokens, *i, \1);', regex=True, rule='R12', required=False,
-                             why='IndexMut + tuple-field assignment through a shim (frame: only that token tag changes)')],
+                             why='IndexMut + tuple-field assignment through a shim (frame: only that token tag changes)'),
+                  Rw('let end = rest.len() - tail.len();', '', required=False, rule='R12', why='byte offset of the suffix: folded into the shim below'),
+                  Rw('_token.push_str(&rest[..end]);', '_token.push_str(&vx_without_suffix(&rest, &tail));', required=False, rule='R12',
+                     why='the text in front of a suffix, by byte lengths, through a shim with that contract')],
     let_types={'buff': 'Vec<(usize, String)>'},
     ensures=[('C10+C13+C01.expand_env.words_change_only_as_specified',
               'final(tokens)@.len() == old(tokens)@.len() && forall|k: int| 0 <= k < old(tokens)@.len() ==> env_tok_ok(*sh, old(tokens)@, k, #[trigger] final(tokens)@[k])')],
@@ -519,5 +545,6 @@ UNIT = Unit('U-EXP2', TEMPLATE, fns=[common.has_operator_fn(), common.in_assignm
 TRUSTED = common.TRUSTED_STR + common.TRUSTED_TOKEN + [
     'HashMap<String,String> insert/contains_key/remove/get: std contracts stated over the string views (shims)',
     'parse_line is external here: the tokenization of an alias value is an uninterpreted function of the value',
-    'env_in_token, expand_one_env, the tilde regex replacement are uninterpreted (regex crate)',
+    'env_in_token and the captures of expand_one_env are uninterpreted (regex crate); get_user_home is an environment lookup (assumed stable during the pass)',
+    'split_first_substitution is external here: its contract (head a prefix without an opening, tail a proper suffix) is the one proved in U-EXP3',
 ]
